@@ -1198,6 +1198,559 @@ example :
         getDelegate C05.Ex.lat psab sp.1 sp.2 == getDelegate C05.Ex.lat psab [v'] []) = true := by
   decide
 
+/-! ## map_args on the whole argument vector -/
+
+/-- the slot `map_args` enters `p` into (given that `p` is not passed twice and has a value) -/
+def claim (ps : List Param) (args : List Arg) (rest : KwArgs) (p : Param) : Option Nat :=
+  match slotOf ps p with
+  | some s =>
+      if given args s then some s
+      else if ahas p.argName rest then none
+      else if s < args.length then some s else none
+  | none => none
+
+/-- the final loop of `map_args` at one slot -/
+def goodV (L : Lattice) (a : Arg) (o : Option Param) : Bool :=
+  match o with
+  | some p => check L p.ty (if a.isNoValue then p.default.getD .noValue else a)
+  | none => false
+
+theorem posOk_of_good (L : Lattice) : ∀ (pos : List (Option Param)) (args : List Arg),
+    pos.length = args.length →
+    (∀ i, i < pos.length → goodV L (args.getD i .noValue) (pos.getD i none) = true) → posOk L pos args = true
+  | [], _, _, _ => by simp [posOk]
+  | o :: r, [], h, _ => by simp at h
+  | o :: r, a :: as, h, hg => by
+      have h0 := hg 0 (by simp)
+      simp only [List.getD_cons_zero] at h0
+      cases o with
+      | none => simp [goodV] at h0
+      | some p =>
+          simp only [goodV] at h0
+          simp only [posOk, h0, Bool.true_and]
+          apply posOk_of_good L r as (by simpa using h)
+          intro i hi
+          have := hg (i + 1) (by simp; omega)
+          simpa using this
+
+theorem isNoValue_eq {a : Arg} (h : a.isNoValue = true) : a = .noValue := by
+  cases a <;> simp [Arg.isNoValue] at h ⊢
+
+theorem given_false_lt {args : List Arg} {s : Nat} (hg : given args s = false) (hs : s < args.length) :
+    (args.getD s .noValue).isNoValue = true := by
+  simp only [given, List.getElem?_eq_getElem hs, Bool.not_eq_false'] at hg
+  simp only [List.getD_eq_getElem?_getD, List.getElem?_eq_getElem hs, Option.getD_some, hg]
+
+theorem given_true_val {args : List Arg} {s : Nat} (hg : given args s = true) :
+    s < args.length ∧ (args.getD s .noValue).isNoValue = false := by
+  simp only [given] at hg
+  cases h : args[s]? with
+  | none => simp [h] at hg
+  | some a =>
+      simp only [h, Bool.not_eq_true'] at hg
+      have hlt : s < args.length := by
+        rcases Nat.lt_or_ge s args.length with hl | hl
+        · exact hl
+        · rw [List.getElem?_eq_none hl] at h; cases h
+      exact ⟨hlt, by simp [List.getD_eq_getElem?_getD, h, hg]⟩
+
+/-- whoever enters a slot passes the final check of `map_args` there, if `get_delegate` accepts its value -/
+theorem claim_good (L : Lattice) (ps : List Param) (args : List Arg) (rest : KwArgs) (p : Param) (s : Nat) (v : Arg)
+    (hc : claim ps args rest p = some s) (he : effective ps p args rest = some v) (hv : check L p.ty v = true) :
+    s < args.length ∧ goodV L (args.getD s .noValue) (some p) = true := by
+  unfold claim at hc
+  cases hs : slotOf ps p with
+  | none => simp [hs] at hc
+  | some s' =>
+      simp only [hs] at hc
+      simp only [effective, received, hs] at he
+      cases hg : given args s' with
+      | true =>
+          simp only [hg, if_true, Option.some.injEq] at hc he
+          subst hc
+          obtain ⟨hlt, hnv⟩ := given_true_val hg
+          refine ⟨hlt, ?_⟩
+          rw [he] at hnv
+          simp only [goodV, he, hnv, Bool.false_eq_true, if_false, hv]
+      | false =>
+          simp only [hg, Bool.false_eq_true, if_false] at hc he
+          cases hk : ahas p.argName rest with
+          | true => simp [hk] at hc
+          | false =>
+              simp only [hk, Bool.false_eq_true, if_false] at hc
+              split at hc
+              · rename_i hlt
+                simp only [Option.some.injEq] at hc
+                subst hc
+                refine ⟨hlt, ?_⟩
+                simp only [ahas_false_lookup _ _ hk] at he
+                simp only [goodV, given_false_lt hg hlt, if_true, he, Option.getD_some, hv]
+              · cases hc
+
+/-- one iteration of the loop of `map_args` for a parameter that is not passed twice and has a value -/
+theorem mapStep_spec (ps : List Param) (args : List Arg) (st : MapSt) (p : Param)
+    (hnc : ∀ s, slotOf ps p = some s → given args s = true → ahas p.argName st.rest = false)
+    (hv : takes p = true → (effective ps p args st.rest).isSome = true) :
+    ∃ st1, mapStep ps args st p = some st1 ∧
+      st1.rest = (if takes p then adel p.argName st.rest else st.rest) ∧
+      st1.pos = (match claim ps args st.rest p with | some s => st.pos.set s (some p) | none => st.pos) := by
+  unfold mapStep
+  cases hq : p.position with
+  | some q =>
+      simp only
+      by_cases h1 : p.isStar = true
+      · exact ⟨st, by simp [h1], by simp [takes, hq, h1], by simp [claim, slotOf, hq, h1]⟩
+      · by_cases h2 : p.hidden = true
+        · exact ⟨st, by simp [h1, h2], by simp [takes, hq, h1, h2], by simp [claim, slotOf, hq, h1, h2]⟩
+        · have ht : takes p = true := by simp [takes, hq, h1, h2]
+          have hs : slotOf ps p = some (q - fixAt ps q) := by simp [slotOf, hq, h1, h2]
+          have hv' := hv ht
+          simp only [effective, received, hs] at hv'
+          simp only [h1, h2, Bool.false_eq_true, if_false, ht, if_true, claim, hs]
+          cases hg : given args (q - fixAt ps q) with
+          | true =>
+              have hr := hnc _ hs hg
+              simp only [hr, if_true, Bool.false_eq_true, if_false, adel_of_ahas_false _ _ hr]
+              exact ⟨_, rfl, rfl, rfl⟩
+          | false =>
+              simp only [hg, Bool.false_eq_true, if_false] at hv' ⊢
+              cases hk : ahas p.argName st.rest with
+              | true =>
+                  simp only [if_true]
+                  exact ⟨_, rfl, rfl, rfl⟩
+              | false =>
+                  simp only [ahas_false_lookup _ _ hk] at hv'
+                  cases hd : p.default with
+                  | none => simp [hd] at hv'
+                  | some d =>
+                      simp only [Bool.false_eq_true, if_false, Option.isNone_some, adel_of_ahas_false _ _ hk]
+                      by_cases hlt : q - fixAt ps q < args.length
+                      · simp only [hlt, if_true]
+                        exact ⟨_, rfl, rfl, rfl⟩
+                      · simp only [hlt, if_false]
+                        exact ⟨_, rfl, rfl, rfl⟩
+  | none =>
+      simp only
+      by_cases h1 : p.isStarStar = true
+      · exact ⟨st, by simp [h1], by simp [takes, hq, h1], by simp [claim, slotOf, hq]⟩
+      · by_cases h2 : p.hidden = true
+        · exact ⟨st, by simp [h1, h2], by simp [takes, hq, h1, h2], by simp [claim, slotOf, hq]⟩
+        · have ht : takes p = true := by simp [takes, hq, h1, h2]
+          have hs : slotOf ps p = none := by simp [slotOf, hq]
+          have hv' := hv ht
+          simp only [effective, received, hs] at hv'
+          simp only [h1, h2, Bool.false_eq_true, if_false, ht, if_true, claim, hs]
+          cases hk : ahas p.argName st.rest with
+          | true =>
+              simp only [if_true]
+              exact ⟨_, rfl, rfl, rfl⟩
+          | false =>
+              simp only [ahas_false_lookup _ _ hk] at hv'
+              cases hd : p.default with
+              | none => simp [hd] at hv'
+              | some d =>
+                  simp only [Bool.false_eq_true, if_false, Option.isNone_some, adel_of_ahas_false _ _ hk]
+                  exact ⟨_, rfl, rfl, rfl⟩
+
+
+theorem getD_set_self' {α : Type} {l : List α} {i : Nat} (a d : α) (h : i < l.length) : (l.set i a).getD i d = a := by
+  simp only [List.getD_eq_getElem?_getD, List.getElem?_set_self h, Option.getD_some]
+
+theorem getD_set_ne' {α : Type} {l : List α} {s i : Nat} (a d : α) (h : s ≠ i) : (l.set s a).getD i d = l.getD i d := by
+  simp only [List.getD_eq_getElem?_getD, List.getElem?_set_ne h]
+
+theorem takes_of_slot {ps : List Param} {p : Param} {s : Nat} (hs : slotOf ps p = some s) : takes p = true := by
+  unfold slotOf at hs
+  unfold takes
+  cases hq : p.position with
+  | none => simp [hq] at hs
+  | some q =>
+      simp only [hq] at hs
+      by_cases hsh : (p.isStar || p.hidden) = true
+      · simp [hsh] at hs
+      · simp only [Bool.or_eq_true, not_or, Bool.not_eq_true] at hsh
+        simp [hsh.1, hsh.2]
+
+theorem claim_slot {ps : List Param} {args : List Arg} {rest : KwArgs} {p : Param} {i : Nat}
+    (h : claim ps args rest p = some i) : slotOf ps p = some i := by
+  unfold claim at h
+  cases hs : slotOf ps p with
+  | none => simp [hs] at h
+  | some s =>
+      simp only [hs] at h
+      split at h
+      · exact h
+      · split at h
+        · cases h
+        · split at h
+          · exact h
+          · cases h
+
+theorem claim_adel (ps : List Param) (args : List Arg) (rest : KwArgs) (p : Param) {k : Name}
+    (hne : p.argName ≠ k) : claim ps args (adel k rest) p = claim ps args rest p := by
+  simp only [claim, ahas_adel_other hne]
+
+/-- the loop of `map_args` on a vector that `get_delegate` binds: it succeeds, strikes the parameters'
+    names from the keywords, and every slot that was fine before or is entered by someone is fine after -/
+theorem mapLoop_spec (L : Lattice) (ps : List Param) (args : List Arg) : ∀ (l : List Param) (st : MapSt),
+    distinct (namesOf l) = true → st.pos.length = args.length →
+    (∀ p ∈ l, ∀ s, slotOf ps p = some s → given args s = true → ahas p.argName st.rest = false) →
+    (∀ p ∈ l, takes p = true → ∃ v, effective ps p args st.rest = some v ∧ check L p.ty v = true) →
+    ∃ st', mapLoop ps args st l = some st' ∧ st'.rest = dropNames (namesOf l) st.rest ∧
+      st'.pos.length = args.length ∧
+      ∀ i, (goodV L (args.getD i .noValue) (st.pos.getD i none) = true ∨ ∃ p ∈ l, claim ps args st.rest p = some i) →
+        goodV L (args.getD i .noValue) (st'.pos.getD i none) = true
+  | [], st, _, hlen, _, _ => by
+      refine ⟨st, rfl, by simp [namesOf, dropNames_nil], hlen, ?_⟩
+      rintro i (h | ⟨p, hp, _⟩)
+      · exact h
+      · cases hp
+  | p :: r, st, hd, hlen, hnc, hval => by
+      obtain ⟨st1, hstep, hrest1, hpos1⟩ := mapStep_spec ps args st p (hnc p (by simp))
+        (fun ht => by obtain ⟨v, hv, _⟩ := hval p (by simp) ht; simp [hv])
+      -- slot `i` after the step of `p`
+      have hgood1 : ∀ i, (goodV L (args.getD i .noValue) (st.pos.getD i none) = true ∨ claim ps args st.rest p = some i) →
+          goodV L (args.getD i .noValue) (st1.pos.getD i none) = true := by
+        intro i hi
+        cases hc : claim ps args st.rest p with
+        | none =>
+            simp only [hc] at hpos1
+            rw [hpos1]
+            rcases hi with h | h
+            · exact h
+            · rw [hc] at h; cases h
+        | some s =>
+            simp only [hc] at hpos1
+            obtain ⟨v, hv, hcv⟩ := hval p (by simp) (takes_of_slot (claim_slot hc))
+            obtain ⟨hlt, hg⟩ := claim_good L ps args st.rest p s v hc hv hcv
+            by_cases hsi : s = i
+            · subst hsi
+              rw [hpos1, getD_set_self' _ _ (by omega)]
+              exact hg
+            · rw [hpos1, getD_set_ne' _ _ hsi]
+              rcases hi with h | h
+              · exact h
+              · rw [hc] at h; exact absurd (Option.some.inj h) hsi
+      have hlen1 : st1.pos.length = args.length := by
+        rw [hpos1]; split <;> simp [hlen]
+      rw [namesOf_cons] at hd ⊢
+      simp only [mapLoop, hstep]
+      by_cases ht : takes p = true
+      · simp only [ht, if_true, distinct, Bool.and_eq_true, Bool.not_eq_true', List.contains_eq_mem,
+          decide_eq_false_iff_not] at hd hrest1 ⊢
+        have hne : ∀ p' ∈ r, takes p' = true → p'.argName ≠ p.argName := fun p' hp' ht' e =>
+          hd.1 (e ▸ mem_namesOf hp' ht')
+        obtain ⟨st', hl, hr', hlen', hg'⟩ := mapLoop_spec L ps args r st1 hd.2 hlen1
+          (fun p' hp' s hs hg => by
+            rw [hrest1]; exact ahas_adel_false _ _ _ (hnc p' (by simp [hp']) s hs hg))
+          (fun p' hp' ht' => by
+            rw [hrest1, effective_adel ps p' args st.rest (hne p' hp' ht')]
+            exact hval p' (by simp [hp']) ht')
+        refine ⟨st', hl, by rw [hr', hrest1, dropNames_cons], hlen', ?_⟩
+        intro i hi
+        apply hg'
+        rcases hi with h | ⟨p', hp', hc⟩
+        · exact Or.inl (hgood1 i (Or.inl h))
+        · rcases List.mem_cons.1 hp' with rfl | hpr
+          · exact Or.inl (hgood1 i (Or.inr hc))
+          · refine Or.inr ⟨p', hpr, ?_⟩
+            rw [hrest1, claim_adel ps args st.rest p' (hne p' hpr (takes_of_slot (claim_slot hc)))]
+            exact hc
+      · simp only [ht, Bool.false_eq_true, if_false] at hd hrest1 ⊢
+        obtain ⟨st', hl, hr', hlen', hg'⟩ := mapLoop_spec L ps args r st1 hd hlen1
+          (fun p' hp' s hs hg => by rw [hrest1]; exact hnc p' (by simp [hp']) s hs hg)
+          (fun p' hp' ht' => by rw [hrest1]; exact hval p' (by simp [hp']) ht')
+        refine ⟨st', hl, by rw [hr', hrest1], hlen', ?_⟩
+        intro i hi
+        apply hg'
+        rcases hi with h | ⟨p', hp', hc⟩
+        · exact Or.inl (hgood1 i (Or.inl h))
+        · rcases List.mem_cons.1 hp' with rfl | hpr
+          · exact Or.inl (hgood1 i (Or.inr hc))
+          · exact Or.inr ⟨p', hpr, by rw [hrest1]; exact hc⟩
+
+
+theorem alookup_aset {α : Type} (k k' : Name) (v : α) : ∀ (l : List (Name × α)),
+    alookup k (aset k' v l) = if k' == k then some v else alookup k l
+  | [] => by simp [aset, alookup]
+  | (k'', x) :: r => by
+      simp only [aset]
+      by_cases h1 : (k'' == k') = true
+      · have e1 : k'' = k' := by simpa using h1
+        subst e1
+        by_cases h2 : (k'' == k) = true <;> simp [h2, alookup]
+      · simp only [h1, Bool.false_eq_true, if_false, alookup, alookup_aset k k' v r]
+        by_cases h2 : (k'' == k) = true
+        · have e2 : k'' = k := by simpa using h2
+          subst e2
+          have h3 : (k' == k'') = false := by
+            cases h : k' == k'' with
+            | false => rfl
+            | true => exact absurd (by simpa using (beq_iff_eq.1 h).symm) h1
+          simp [h3]
+        · simp [h2]
+
+theorem alookup_foldl_aset {α : Type} (sp : α) (k : Name) : ∀ (rest : KwArgs) (acc : List (Name × α)),
+    (ahas k rest = true ∨ alookup k acc = some sp) →
+    alookup k (rest.foldl (fun acc kv => aset kv.1 sp acc) acc) = some sp
+  | [], acc, h => by
+      rcases h with h | h
+      · simp [ahas] at h
+      · exact h
+  | kv :: r, acc, h => by
+      simp only [List.foldl_cons]
+      apply alookup_foldl_aset sp k r
+      rw [alookup_aset]
+      by_cases hk : (kv.1 == k) = true
+      · exact Or.inr (by simp [hk])
+      · rcases h with h | h
+        · simp only [ahas, List.any_cons, Bool.or_eq_true] at h
+          rcases h with h | h
+          · exact absurd h hk
+          · exact Or.inl (by simpa [ahas] using h)
+        · exact Or.inr (by simp [hk, h])
+
+/-- the part of `map_args` after the loop -/
+def mapFinish (L : Lattice) (ps : List Param) (args : List Arg) (kwargs : KwArgs) (st : MapSt) : Option Mapping :=
+  let kwd? : Option (List (Name × Param)) :=
+    if st.rest.isEmpty then some st.kwd
+    else match starStarParam ps with
+      | some sp => some (st.rest.foldl (fun acc kv => aset kv.1 sp acc) st.kwd)
+      | none => none
+  match kwd? with
+  | none => none
+  | some kwd =>
+      if !posOk L st.pos args then none
+      else if !(st.rest.all fun kv => checkOpt L (alookup kv.1 kwd) kv.2) then none
+      else some { pos := st.pos.filterMap id,
+                  kwd := kwargs.filterMap fun kv => (alookup kv.1 kwd).map fun p => (kv.1, p) }
+
+theorem mapArgs_eq_finish (L : Lattice) (ps : List Param) (args : List Arg) (kw : KwArgs) :
+    mapArgs L ps args kw =
+      (mapLoop ps args { pos := List.replicate args.length (starParam ps), kwd := [], rest := kw } ps).bind
+        (mapFinish L ps args kw) := by
+  unfold mapArgs
+  dsimp only
+  cases mapLoop ps args _ ps <;> rfl
+
+theorem mapFinish_isSome (L : Lattice) (ps : List Param) (args : List Arg) (kw : KwArgs) (st : MapSt)
+    (hpos : posOk L st.pos args = true)
+    (hrest : st.rest.isEmpty = true ∨
+      ∃ sp, starStarParam ps = some sp ∧ st.rest.all (fun kv => check L sp.ty kv.2) = true) :
+    (mapFinish L ps args kw st).isSome = true := by
+  unfold mapFinish
+  rcases hrest with he | ⟨sp, hsp, hall⟩
+  · have : st.rest = [] := by simpa using he
+    simp [he, hpos, this]
+  · by_cases he : st.rest.isEmpty = true
+    · have : st.rest = [] := by simpa using he
+      simp [he, hpos, this]
+    · have hchk : (st.rest.all fun kv =>
+          checkOpt L (alookup kv.1 (st.rest.foldl (fun acc kv => aset kv.1 sp acc) st.kwd)) kv.2) = true := by
+        rw [List.all_eq_true] at hall ⊢
+        intro kv hkv
+        have hh : ahas kv.1 st.rest = true := by
+          simp only [ahas, List.any_eq_true]
+          exact ⟨kv, hkv, by simp⟩
+        rw [alookup_foldl_aset sp kv.1 st.rest st.kwd (Or.inl hh)]
+        exact hall kv hkv
+      simp only [he, Bool.false_eq_true, if_false, hsp, hpos, Bool.not_true, hchk, Option.isSome_some]
+
+theorem bindLoop_checks (L : Lattice) (ev : Param → Option Arg) : ∀ (l : List Param) (c c' : Core),
+    bindLoop L ev c l = some c' → ∀ p ∈ l, takes p = true → ∃ v, ev p = some v ∧ check L p.ty v = true
+  | [], _, _, _, p, hp, _ => by cases hp
+  | x :: r, c, c', h, p, hp, ht => by
+      simp only [bindLoop] at h
+      cases hs : bindStep L ev c x with
+      | none => simp [hs] at h
+      | some c1 =>
+          simp only [hs] at h
+          rcases List.mem_cons.1 hp with rfl | hpr
+          · unfold bindStep at hs
+            unfold takes at ht
+            cases hq : p.position with
+            | some q =>
+                simp only [hq, Bool.and_eq_true, Bool.not_eq_true'] at hs ht
+                simp only [ht.1, ht.2, Bool.false_eq_true, if_false, Option.bind_eq_some_iff,
+                  Option.map_eq_some_iff, checked] at hs
+                obtain ⟨v, hv, sl, hc, _⟩ := hs
+                refine ⟨v, hv, ?_⟩
+                split at hc
+                · assumption
+                · cases hc
+            | none =>
+                simp only [hq, Bool.and_eq_true, Bool.not_eq_true'] at hs ht
+                simp only [ht.1, ht.2, Bool.false_eq_true, if_false, Option.bind_eq_some_iff,
+                  Option.map_eq_some_iff, checked] at hs
+                obtain ⟨v, hv, sl, hc, _⟩ := hs
+                refine ⟨v, hv, ?_⟩
+                split at hc
+                · assumption
+                · cases hc
+          · exact bindLoop_checks L ev r c1 c' h p hpr ht
+
+theorem finish_some {L : Lattice} {ps : List Param} {args : List Arg} {st : DelSt} {b : Bound}
+    (h : finish L ps args st = some b) :
+    (args.length > st.vis → ∃ sp, starParam ps = some sp ∧ (args.drop st.vis).all (check L sp.ty) = true) ∧
+    (st.rest.isEmpty = true ∨ ∃ sp, starStarParam ps = some sp ∧ st.rest.all (fun kv => check L sp.ty kv.2) = true) := by
+  unfold finish at h
+  constructor
+  · intro hlen
+    simp only [hlen, if_true] at h
+    cases hsp : starParam ps with
+    | none => simp [hsp] at h
+    | some sp =>
+        refine ⟨sp, rfl, ?_⟩
+        cases hall : (args.drop st.vis).all (check L sp.ty) with
+        | true => rfl
+        | false => simp [hsp, hall] at h
+  · by_cases he : st.rest.isEmpty = true
+    · exact Or.inl he
+    · right
+      simp only [he, Bool.false_eq_true, if_false] at h
+      split at h
+      · cases h
+      · cases hsp : starStarParam ps with
+        | none => simp [hsp] at h
+        | some sp =>
+            refine ⟨sp, rfl, ?_⟩
+            cases hall : st.rest.all (fun kv => check L sp.ty kv.2) with
+            | true => rfl
+            | false => simp [hsp, hall] at h
+
+/-- every argument slot below `visCount` that the call writes (filled or empty) is entered by its
+    parameter: there is no empty slot whose parameter comes by keyword instead -/
+def slotsClaimed (ps : List Param) (args : List Arg) (kw : KwArgs) : Bool :=
+  (List.range (min args.length (visCount ps))).all fun i => ps.any fun p => claim ps args kw p == some i
+
+/-- **a vector that `get_delegate` binds passes `map_args`**, in every spelling that has no empty slot
+    whose parameter comes by keyword (the `*` parameter having no default) -/
+theorem mapArgs_of_getDelegate (L : Lattice) (ps : List Param) (hwf : wfDef ps = true)
+    (hstar : ∀ sp, starParam ps = some sp → sp.default = none)
+    (args : List Arg) (kw : KwArgs) (hcl : slotsClaimed ps args kw = true)
+    (h : (getDelegate L ps args kw).isSome = true) : (mapArgs L ps args kw).isSome = true := by
+  obtain ⟨ht, hd⟩ := wfDef_takes hwf
+  have hn : namesOf ps = argNames ps := by
+    simp only [namesOf, argNames]
+    congr 1
+    apply List.filter_congr
+    intro p hp
+    rw [ht p hp]
+  have hnc : noClash ps args kw = true := by
+    cases hc : noClash ps args kw with
+    | true => rfl
+    | false => rw [getDelegate_clash L ps hwf args kw hc] at h; cases h
+  rw [getDelegate_eq_of_received L ps hwf args kw hnc] at h
+  cases hb : bindLoop L (fun p => effective ps p args kw) (core0 ps) ps with
+  | none => rw [hb] at h; cases h
+  | some c =>
+      rw [hb, Option.bind_some] at h
+      cases hf : finish L ps args (c.withRest (extraKw ps kw)) with
+      | none => rw [hf] at h; cases h
+      | some b =>
+          obtain ⟨hF1, hF2⟩ := finish_some hf
+          have hvis : c.vis = visCount ps := by
+            have := bindLoop_vis L _ ps _ c hb
+            simpa [core0, visCount] using this
+          simp only [Core.withRest, hvis] at hF1 hF2
+          obtain ⟨st', hl, hr', hlen', hg'⟩ := mapLoop_spec L ps args ps
+            { pos := List.replicate args.length (starParam ps), kwd := [], rest := kw } hd (by simp)
+            (noClash_spec hnc) (bindLoop_checks L _ ps _ c hb)
+          rw [mapArgs_eq_finish, hl, Option.bind_some]
+          apply mapFinish_isSome
+          · apply posOk_of_good L st'.pos args hlen'
+            intro i hi
+            rw [hlen'] at hi
+            apply hg'
+            by_cases hiv : i < visCount ps
+            · right
+              simp only [slotsClaimed, List.all_eq_true, List.mem_range, List.any_eq_true, beq_iff_eq] at hcl
+              exact hcl i (by omega)
+            · left
+              obtain ⟨sp, hsp, hall⟩ := hF1 (by omega)
+              have hsd := hstar sp hsp
+              simp only [List.getD_eq_getElem?_getD, List.getElem?_replicate, hi, if_true, Option.getD_some, hsp,
+                goodV, hsd, Option.getD_none]
+              have hmem : args.getD i .noValue ∈ args.drop (visCount ps) := by
+                rw [List.mem_iff_getElem?]
+                refine ⟨i - visCount ps, ?_⟩
+                rw [List.getElem?_drop]
+                have : visCount ps + (i - visCount ps) = i := by omega
+                rw [this, List.getD_eq_getElem?_getD, List.getElem?_eq_getElem hi, Option.getD_some]
+              have hchk := (List.all_eq_true.1 hall) _ hmem
+              rw [← List.getD_eq_getElem?_getD]
+              split
+              · rename_i hnv
+                rw [isNoValue_eq hnv] at hchk
+                exact hchk
+              · exact hchk
+          · rw [hr', hn]
+            exact hF2
+
+/-- `map_args` agrees on the spellings of a vector that `get_delegate` binds -/
+theorem spelling_mapArgs_agree (L : Lattice) (ps : List Param) (hwf : wfDef ps = true)
+    (hstarNoDefault : ∀ sp, starParam ps = some sp → sp.default = none)
+    (args args' : List Arg) (kw kw' : KwArgs)
+    (hval : ∀ p ∈ ps, p.hidden = false → p.isStar = false → p.isStarStar = false →
+      effective ps p args kw = effective ps p args' kw')
+    (hstar : args.drop (visCount ps) = args'.drop (visCount ps))
+    (hextra : extraKw ps kw = extraKw ps kw') (hclash : noClash ps args kw = noClash ps args' kw')
+    (hcl : slotsClaimed ps args kw = true) (hcl' : slotsClaimed ps args' kw' = true)
+    (h : (getDelegate L ps args kw).isSome = true) :
+    (mapArgs L ps args kw).isSome = true ∧ (mapArgs L ps args' kw').isSome = true :=
+  ⟨mapArgs_of_getDelegate L ps hwf hstarNoDefault args kw hcl h,
+   mapArgs_of_getDelegate L ps hwf hstarNoDefault args' kw' hcl'
+     (spelling_equiv L ps hwf args args' kw kw' hval hstar hextra hclash ▸ h)⟩
+
+namespace Ex12
+def c6 : Arg := .const (.obj 6 [] 2) .num none 0
+def pstar : Param := { key := .star, name := ['r'], alias := none, position := some 1, default := some (.value .none),
+                       ty := .py (.one 0) false [] }
+end Ex12
+
+open Ex12 in
+/-- `map_args` alone is NOT spelling-invariant (the real `map_args` agrees with the model on both witnesses):
+    (1) it checks the arguments in the slots and `**`'s share, but not the keywords that named parameters
+    take: a constant of the wrong class is rejected in the slot and accepted by keyword (`get_delegate`
+    rejects both);
+    (2) an empty slot whose parameter comes by keyword is never entered: `f(x, <empty>, b => d)` is rejected
+    by `map_args` although `get_delegate` alone binds it; `f(x, b => d)` and `f(x, d)` pass -/
+theorem mapArgs_not_spelling_invariant :
+    ((mapArgs C05.Ex.lat [pa] [c6] []).isSome = false ∧ (mapArgs C05.Ex.lat [pa] [] [(['a'], c6)]).isSome = true ∧
+      effective [pa] pa [c6] [] = effective [pa] pa [] [(['a'], c6)] ∧
+      getDelegate C05.Ex.lat [pa] [c6] [] = none ∧ getDelegate C05.Ex.lat [pa] [] [(['a'], c6)] = none) ∧
+    ((mapArgs C05.Ex.lat psab [v', .noValue] [(['b'], v)]).isSome = false ∧
+      slotsClaimed psab [v', .noValue] [(['b'], v)] = false ∧
+      (getDelegate C05.Ex.lat psab [v', .noValue] [(['b'], v)]).isSome = true ∧
+      getDelegate C05.Ex.lat psab [v', .noValue] [(['b'], v)] = getDelegate C05.Ex.lat psab [v', v] [] ∧
+      (mapArgs C05.Ex.lat psab [v'] [(['b'], v)]).isSome = true ∧ (mapArgs C05.Ex.lat psab [v', v] []).isSome = true) := by
+  decide
+
+open Ex12 in
+/-- what (1) does to the choice of an overload: `P(x: Lambda)`, `Q(x: String)`; `f(1)` is answered by `P`
+    (`map_args` drops `Q` before the laziness comparison), `f(x => 1)` is Ambiguous (`Q` stays in).  The real
+    resolver does the same (notes/C12.md) -/
+example :
+    (resolve C05.Ex.lat C05.Ex.famPQ { receiver := none, args := [c6], kwargs := [] }).res =
+      .ok (0, { pos := [some (.arg c6)], extra := [], kw := [] }) ∧
+    (resolve C05.Ex.lat C05.Ex.famPQ { receiver := none, args := [], kwargs := [(['x'], c6)] }).res =
+      .error .ambiguous := by
+  decide
+
+open Ex12 in
+/-- the guards of `mapArgs_of_getDelegate` are needed and satisfiable: (2) above for `slotsClaimed`; a `*`
+    parameter with a default and an empty slot in its share for the other (`map_args` checks the default,
+    `get_delegate` the NO_VALUE marker); every spelling of the non-vacuity example of `spelling_equiv`
+    satisfies both and passes `map_args` -/
+example :
+    (wfDef [pa, pstar] = true ∧ slotsClaimed [pa, pstar] [v, .noValue] [] = true ∧
+      (getDelegate C05.Ex.lat [pa, pstar] [v, .noValue] []).isSome = true ∧
+      (mapArgs C05.Ex.lat [pa, pstar] [v, .noValue] []).isSome = false) ∧
+    ([([v'], []), ([v', v], []), ([v', .noValue], []), ([], [(['b'], v), (['a'], v')]), ([], [(['a'], v')]),
+      ([v'], [(['b'], v)])] : List (List Arg × KwArgs)).all (fun sp =>
+        slotsClaimed psab sp.1 sp.2 && (mapArgs C05.Ex.lat psab sp.1 sp.2).isSome) = true := by
+  decide
+
 /-- hypotheses of the two move theorems are satisfiable: `f(a, ctx, b = d)` with a hidden parameter
     in the middle, `b` moved to a keyword / left to its default -/
 example :
